@@ -501,6 +501,15 @@ def _c02():
         L.append(leg(name, "c02_addr", (2, 3), prm, what="two mutexes whose addresses share one of the 2048 address-waiter buckets, one sleeper each: unlocking one must wake its own sleeper wherever it stands in the shared wait set"))
     for k in ("wait_sleep", "enqueue", "enqueue2"):
         L.append(leg("rt-%s-asleep" % k, "c02_rt", (2, 3), {"kind": k, "asleep": 1}, what="same, worker asleep when the window opens"))
+    # session 4: every C02 leg of these harnesses cost well under a second at the bounds above, so each runs one preemption deeper in both tiers
+    # (measured to completion on the unchanged tree; the address-waiter programs are tiny and get +2 / +3)
+    for l in L:
+        if l["name"] in ("mon-2-all", "mon-2-abort", "mon-2-all-tso", "mon-2-pred-tso", "rt-execute_full", "rt-execute_handover"):
+            continue   # tried: these do not complete the deeper bound inside the quick budget, so the step would cover less, not more
+        if l["harness"] in ("c02_monitor", "c02_monitor@tso", "c02_rt"):
+            l["bound"] = (l["bound"][0] + 1, l["bound"][1] + 1)
+        elif l["harness"] == "c02_addr":
+            l["bound"] = (l["bound"][0] + 2, l["bound"][1] + 3)
     return L
 PROPS["C02"] = {
     "explanation": "Closed 2-4 thread systems in which a lost wake-up is a deadlock: (1) the real concurrent_monitor alone (sleeper prepare_wait / re-check / commit_wait vs "
